@@ -148,7 +148,12 @@ CanonInts == {ToString(n) : n \in 0..120} \cup {"-" \o ToString(n) : n \in 1..20
 F6Map == [v \in {"0","1","2","3","5","7","8","10","16","100","-4","1.5","2.25","-0.5","7777.5"} |->
             CASE v = "1.5" -> "1.500000" [] v = "2.25" -> "2.250000" [] v = "-0.5" -> "-0.500000"
               [] v = "7777.5" -> "7777.500000" [] OTHER -> v \o ".000000"]
-F6(v) == IF v \in DOMAIN F6Map THEN F6Map[v] ELSE v \o ".000000"
+(* other canonical decimals (e.g. what a value-parsing callback produced): pad to six places *)
+F6(v) == IF v \in DOMAIN F6Map THEN F6Map[v]
+         ELSE LET dots == {i \in 1..Len(v) : SubSeq(v, i, i) = "."}
+              IN IF dots = {} THEN v \o ".000000"
+                 ELSE LET p == CHOOSE i \in dots : TRUE
+                      IN v \o SubSeq("000000", 1, 6 - (Len(v) - p))
 UnF6(t) == LET S == {v \in DOMAIN F6Map : F6Map[v] = t} IN IF S = {} THEN Bad ELSE CHOOSE v \in S : TRUE
 
 Conv(type, text) ==
